@@ -499,9 +499,13 @@ class PatchedIceCastClient(miniaudio.StreamableSource):
         self._download_thread.join()
 
     def _readall(self, fileobject, size: int) -> bytes:
+        # Returns less than size only if end of stream is reached
         buffer = b""
         while len(buffer) < size:
-            buffer += fileobject.read(size)
+            data = fileobject.read(size - len(buffer))
+            if not data:
+                break
+            buffer += data
         return buffer
 
     def _stream_wrapper(self) -> None:
@@ -524,6 +528,9 @@ class PatchedIceCastClient(miniaudio.StreamableSource):
             else:
                 meta_interval = 0
 
+            # Number of audio bytes left until next metadata block
+            until_meta = meta_interval
+
             while not self._stop_stream:
                 # Wait for space in buffer
                 # TODO: Should be lock-based instead of polling
@@ -532,20 +539,31 @@ class PatchedIceCastClient(miniaudio.StreamableSource):
                     if self._stop_stream:
                         return
 
-                # Read data from response
+                # Read data from response (never more than what is known to fit)
                 if meta_interval:
-                    chunk = self._readall(result, meta_interval)
-                    meta_size = 16 * self._readall(result, 1)[0]
-                    self._readall(result, meta_size)
+                    wanted = min(until_meta, self.BLOCK_SIZE)
+                    chunk = self._readall(result, wanted)
+                    until_meta -= len(chunk)
+                    ended = len(chunk) < wanted
+                    if not ended and until_meta == 0:
+                        meta_length = self._readall(result, 1)
+                        if meta_length:
+                            self._readall(result, 16 * meta_length[0])
+                            until_meta = meta_interval
+                        else:
+                            ended = True
                 else:
                     chunk = result.read(self.BLOCK_SIZE)
-                    if chunk == b"":
-                        _LOGGER.debug("HTTP streaming ended")
-                        self._stop_stream = True
+                    ended = chunk == b""
 
                 # Add produced chunk to internal buffer
                 with self._buffer_lock:
                     self._buffer.add(chunk)
+
+                # Flag end of stream once all data is in the buffer
+                if ended:
+                    _LOGGER.debug("HTTP streaming ended")
+                    self._stop_stream = True
 
 
 class InternetSource(AudioSource):
